@@ -88,6 +88,30 @@ Definition request_ok (client_ip : string) (q : request) (u : seen) : list bool 
     query_ok (q_target q) (s_uri u);
     headers_ok client_ip (q_headers q) (s_headers u) ].
 
+(* ---- connection upgrades: Connection / Upgrade and every other client header are forwarded (no hop-by-hop
+   stripping on this path, by design); the gateway owns Authorization, Impersonate-*, X-Forwarded-For,
+   User-Agent (Go's default when the client sent none) and the framing headers *)
+Definition upgrade_owned (k : string) : bool :=
+  (String.eqb k H_AUTH || has_prefix k H_IMP || str_in k ["X-Forwarded-For"; "User-Agent"] || str_in k framing)%bool.
+Definition upgrade_headers_ok (client_ip : string) (h up : headers) : bool :=
+  (forallb (fun e => if upgrade_owned (fst e) then true else vals_eqb (h_values (fst e) up) (h_values (fst e) h)) h
+   && forallb (fun e => (upgrade_owned (fst e) || h_has (fst e) h)%bool) up
+   && vals_eqb (h_values "X-Forwarded-For" up)
+               [match h_values "X-Forwarded-For" h with [] => client_ip | p => join ", " p +++ ", " +++ client_ip end]
+   && (match h_values "User-Agent" h with
+       | v :: _ => if String.eqb v EmptyString then true else vals_eqb (h_values "User-Agent" up) [v]
+       | [] => true
+       end))%bool.
+
+Definition upgrade_request_ok (client_ip : string) (q : request) (u : seen) : list bool :=
+  [ (String.eqb (s_method u) (q_method q) && String.eqb (s_body u) (q_body q) && String.eqb (s_host u) (q_host q))%bool;
+    path_ok (q_target q) (s_uri u);
+    query_ok (q_target q) (s_uri u);
+    upgrade_headers_ok client_ip (q_headers q) (s_headers u) ].
+(* whatever the upstream answers to the upgrade (101 + the bytes that follow, or a refusal) reaches the client *)
+Definition upgrade_response_ok (reply : response) (o : obs) : bool :=
+  (Z.eqb (o_status o) (r_status reply) && String.eqb (o_body o) (r_body reply))%bool.
+
 (* ---- response *)
 Definition resp_key (h : headers) (k : string) : bool :=
   negb (str_in k hop_headers || str_in k (connection_named h) || str_in k framing).
@@ -146,6 +170,8 @@ Definition termination_ok (c : cluster) (q : request) (id : identity) (deny : li
 Definition spec_clauses (client_ip : string) (c : cluster) (q : request) (id : identity) (deny : list imp_item)
                         (reply : response) (o : obs) : list bool :=
   match o_ups o with
-  | [u] => request_ok client_ip q u ++ [response_ok (q_method q) reply o; termination_ok c q id deny o]
+  | [u] => if is_upgrade_request (q_headers q)
+           then upgrade_request_ok client_ip q u ++ [upgrade_response_ok reply o; termination_ok c q id deny o]
+           else request_ok client_ip q u ++ [response_ok (q_method q) reply o; termination_ok c q id deny o]
   | _ => [true; true; true; true; true; termination_ok c q id deny o]
   end.
